@@ -17,11 +17,27 @@ const char *H_NAME = "ringseq";
 void h_run(Ctx &c)
 {
 	Tape &t = c.t;
-	unsigned len = t.enumerating ? (unsigned)c.param("len", 3) : (t.weighted({ 3, 1 }) == 0 ? 2 + t.choose(7) : 2 + t.choose(63));
+	unsigned len;
+	bool big = false;
+	if (t.enumerating)
+		len = (unsigned)c.param("len", 3);
+	else
+		switch (t.weighted({ 12, 4, 1 })) {
+		default:
+		case 0: len = 2 + t.choose(7); break;
+		case 1: len = 2 + t.choose(63); break;
+		case 2: { // the property says every buffer length >= 2: lengths around and beyond 2^16
+			static const unsigned BIG[] = { 255, 256, 257, 65535, 65536, 65537, 70000 };
+			len = BIG[t.choose(7)];
+			big = true;
+			c.cls("large-buffer-length");
+			break;
+		}
+		}
 	ar_setup(len);
 	std::deque<int> q;
 	// pre-cycle through the API so that the indices start anywhere
-	unsigned pre = t.enumerating ? (unsigned)c.param("pre", 0) : t.choose(2 * len + 1);
+	unsigned pre = t.enumerating ? (unsigned)c.param("pre", 0) : big ? (t.flip() ? len - 1 - t.choose(4) : t.choose(len)) : t.choose(2 * len + 1);
 	for (unsigned i = 0; i < pre; i++) {
 		ar_put(0x55);
 		ar_get();
@@ -31,6 +47,32 @@ void h_run(Ctx &c)
 	bool was_full = false, was_empty_after_data = false, high = false, wrapped = false;
 	unsigned long total = pre;
 	for (long i = 0; i < nops && !c.failed; i++) {
+		if (big && t.weighted({ 3, 1 }) == 1) {
+			// burst: fill to (nearly) full or drain to (nearly) empty, checking every step
+			bool fill = t.flip();
+			unsigned leave = t.choose(3);
+			c.note(fill ? "burst put until %u free" : "burst get until %u left", leave);
+			while (!c.failed && (fill ? q.size() + leave < len - 1 : q.size() > leave)) {
+				if (fill) {
+					int d = (int)((total * 7 + 3) & 0xff);
+					int r = ar_put(d);
+					CHECK(c, r == 1, "ringbuf_put failed with %zu of %u unread bytes in the buffer", q.size(), len - 1);
+					q.push_back(d);
+					total++;
+				} else {
+					int r = ar_get();
+					CHECK(c, r == q.front(), "ringbuf_get returned %d, expected %d (%zu unread bytes)", r, q.front(), q.size());
+					q.pop_front();
+				}
+			}
+			if (fill && leave == 0)
+				was_full = true;
+			if (!fill && leave == 0)
+				was_empty_after_data = true;
+			if (total >= len)
+				wrapped = true;
+			continue;
+		}
 		switch (t.enumerating ? t.choose(3) : t.weighted({ 4, 2, 4, 1 })) {
 		case 0:
 		case 1: {
